@@ -340,7 +340,9 @@ def run_job(job, rec):
                 if any(isinstance(v, Raised) for v in (i1, i2, m1, m2)):
                     rec.violation("raised", "interval/moments raised on the rescaled sample", cctx)
                     continue
-                tol_loc = (5e-2 if loose else 1e-4) * sd * al
+                # (the mean itself is required to be that of the density to 3e-4 sd - its quadrature grid has an integer number of nodes that
+                #  can change by one under rescaling; the covariance of mean and interval is not judged more strictly than that)
+                tol_loc = (5e-2 if loose else 3e-4) * sd * al
                 track(name + ":cov_mode", (E2.mode - (al * E.mode + be)) / (sd * al))
                 tied = np.unique(x).size < 0.9 * x.size
                 if loose and tied:
